@@ -33,7 +33,7 @@ func runC19(c *Ctx) {
 }
 
 func c19R1(c *Ctx, rule string) {
-	c.Rule(rule, "wait before write: valve.txWait(len(data)) dominates every conn.Write(data) in switchboard.send (same unmodified parameter); pooled connections are written only there", 3)
+	c.Rule(rule, "wait before write: valve.txWait(len(data)) dominates every conn.Write(data) in switchboard.send (same unmodified parameter); pooled connections are written only there", 2)
 	p := c.P
 	send := c.need(rule, "internal/multiplex", "switchboard.send")
 	if send == nil {
